@@ -78,6 +78,7 @@ type MsgOpts struct {
 	HugeLens   bool
 	FixedAlg   *int64 // restrict all keys to this algorithm (cheap crypto)
 	Inject     bool   // sometimes leave alg out (no external data) so that signing must insert it
+	CrossCurve bool   // sometimes pair an ECDSA algorithm with a key on another curve
 }
 
 func expand(seed []byte, n int) []byte {
@@ -97,6 +98,10 @@ func drawKey(t *rapid.T, o MsgOpts) refcose.KeyMat {
 		alg = Alg(t)
 	}
 	km := KeyMat(t, alg)
+	if km.Family() == "ec" && o.CrossCurve && rapid.IntRange(0, 7).Draw(t, "cross-curve") == 0 {
+		// the library lets ES256/384/512 be used with a key on any of the three curves
+		km.Curve = rapid.SampledFrom([]int{256, 384, 521}).Draw(t, "curve")
+	}
 	if km.Family() == "ec" {
 		// full-width scalar from the drawn seed; sometimes a small scalar
 		if rapid.IntRange(0, 7).Draw(t, "small-d") != 0 {
@@ -211,6 +216,9 @@ func Msg(t *rapid.T, o MsgOpts) MsgSpec {
 		m.Prot, m.Unprot = Headers(t, bo)
 		for i := 0; i < n; i++ {
 			s := SigSpec{Key: drawKey(t, o), ViaKey: rapid.IntRange(0, 4).Draw(t, "viakey") == 0}
+			if s.Key.Curve != 0 {
+				s.ViaKey = false // a COSE_Key fixes the algorithm of its curve
+			}
 			so := o
 			so.Hdr.MaxEntries = 4
 			s.Prot, s.Unprot, s.NoAlg, s.Inject = layerHeaders(t, so, s.Key.Alg, hasExt)
@@ -219,6 +227,9 @@ func Msg(t *rapid.T, o MsgOpts) MsgSpec {
 		}
 	} else {
 		s := SigSpec{Key: drawKey(t, o), ViaKey: rapid.IntRange(0, 4).Draw(t, "viakey") == 0}
+		if s.Key.Curve != 0 {
+			s.ViaKey = false
+		}
 		m.Prot, m.Unprot, m.NoAlg, m.Inject = layerHeaders(t, o, s.Key.Alg, hasExt)
 		m.Sigs = []SigSpec{s}
 	}
